@@ -1,11 +1,28 @@
-"""Obligations for C12."""
+"""Obligations for C12 (reformatting never changes meaning)."""
 import os
 from oblib import ob
 
-BOUNDS = {"quick": "", "thorough": ""}
-ASSUMPTIONS = []
+BOUNDS = {
+    "quick": "Value.Format / AppendFormat / Compact / Indent / Canonicalize on (a) every byte string of length <= 3 (full byte range), "
+             "(b) every string of length 4-5 over the 27-character JSON alphabet Sigma24, (c) skeletons of objects/arrays with one nested level and "
+             "1-5 free bytes (names, string contents, scalar values, lead/continuation bytes), each under groups of 2-8 boolean options chosen by "
+             "the solver (AllowInvalidUTF8, AllowDuplicateNames, PreserveRawStrings, CanonicalizeRawInts/Floats, ReorderRawObjects, EscapeForHTML/JS, "
+             "SpaceAfterColon/Comma, Multiline) and the indent settings {default, WithIndent(\" \"), WithIndentPrefix(\" \")+WithIndent(\"\\t\"), WithIndent(\"\")}. "
+             "OUTSIDE: longer inputs, deeper nesting, option combinations not grouped together, WithByteLimit/WithDepthLimit; under CanonicalizeRaw* "
+             "numbers with symbolic digits are restricted to integers of <= 15 digits other than -0 (no strconv work), re-spelled concrete numbers are "
+             "only checked to stay numbers (their digits: C13 num table). 'Already formatted value is not rewritten' is checked as: the output is a "
+             "fixed point (a same-bytes rewrite is not observable in sequential Go).",
+    "thorough": "as quick with full-range length <= 4, Sigma24 length <= 6, larger option groups (all 11 options symbolic on length 1, 8 on length 2), "
+                "more skeletons (three members, duplicate names with ReorderRawObjects, 3/4-byte UTF-8 names, \\\\u escapes). OUTSIDE: as quick.",
+}
+ASSUMPTIONS = [
+    "sync.Pool of encoders/decoders/member slices modelled LIFO (pooled encoder state reused across the Format calls of one path)",
+    "strconv.ParseFloat/AppendFloat executed on concrete literals only; symbolic digits are kept away from them by vrt.Assume (see bounds)",
+]
 
 UTF8, DUP, PRES, CINT, CFLT, REORD, HTML, JS, SPCOL, SPCOM, MULTI = [1 << i for i in range(11)]
+ALL = 2047
+P = "jsontext"
 
 
 def obligations(tier):
@@ -14,6 +31,83 @@ def obligations(tier):
     if os.environ.get("C12_PROBE"):
         import json
         a = json.loads(os.environ["C12_PROBE"])
-        L.append(ob("probe", "jsontext", a[0], a[1:], covers=["accept"]))
+        L.append(ob("probe", P, a[0], a[1:], covers=["accept"]))
         return L
+
+    def fmt(tag, n, alpha, tmpl, on, off, sym, indent=0, covers=("accept", "reject")):
+        L.append(ob("format/%s/on=%d/off=%d/sym=%d/indent=%d" % (tag, on, off, sym, indent), P, "VerifC12Format", [n, alpha, tmpl, on, off, sym, indent], covers=list(covers)))
+
+    def app(tag, n, alpha, tmpl, on, sym, overlap):
+        L.append(ob("append/%s/on=%d/sym=%d/overlap=%d" % (tag, on, sym, overlap), P, "VerifC12Append", [n, alpha, tmpl, on, 0, sym, 0, overlap], covers=["accept", "reject"]))
+
+    def wrap(tag, n, alpha, tmpl, which, on=0, off=0, sym=0, indent=0, covers=("accept", "reject")):
+        L.append(ob("%s/%s/on=%d/off=%d/sym=%d/indent=%d" % (("compact", "indent", "canonicalize")[which], tag, on, off, sym, indent), P, "VerifC12Wrap",
+                    [n, alpha, tmpl, which, on, off, sym, indent], covers=list(covers)))
+
+    # ---- fully symbolic inputs
+    if q:
+        fmt("full/n=1", 1, 0, "", 0, 0, UTF8 | DUP | PRES | CINT | CFLT | REORD | HTML | JS)
+        fmt("full/n=2", 2, 0, "", 0, 0, UTF8 | DUP | PRES | HTML | JS)
+        fmt("full/n=2", 2, 0, "", 0, 0, CINT | CFLT | REORD | SPCOM | MULTI)
+        fmt("full/n=3", 3, 0, "", 0, 0, UTF8 | PRES | HTML)
+        fmt("full/n=3", 3, 0, "", 0, 0, MULTI | SPCOM | DUP, indent=0)
+        fmt("full/n=3", 3, 0, "", CINT | CFLT | REORD, 0, 0, indent=2)
+        fmt("sigma24/n=4", 4, 1, "", 0, 0, MULTI | REORD)
+        fmt("sigma24/n=5", 5, 1, "", 0, 0, 0)
+    else:
+        fmt("full/n=1", 1, 0, "", 0, 0, ALL)
+        fmt("full/n=2", 2, 0, "", 0, 0, UTF8 | DUP | PRES | CINT | CFLT | REORD | HTML | JS)
+        fmt("full/n=2", 2, 0, "", 0, 0, SPCOL | SPCOM | MULTI | REORD | PRES, indent=1)
+        fmt("full/n=3", 3, 0, "", 0, 0, UTF8 | DUP | PRES | HTML | JS)
+        fmt("full/n=3", 3, 0, "", 0, 0, CINT | CFLT | REORD | SPCOL | SPCOM | MULTI)
+        for ind in (1, 2, 3):
+            fmt("full/n=3", 3, 0, "", 0, 0, REORD | SPCOM, indent=ind)
+        fmt("full/n=4", 4, 0, "", 0, 0, UTF8 | PRES)
+        fmt("full/n=4", 4, 0, "", 0, 0, HTML | JS)
+        fmt("full/n=4", 4, 0, "", CINT | CFLT | REORD | MULTI, 0, 0)
+        fmt("sigma24/n=4", 4, 1, "", 0, 0, MULTI | REORD | DUP | PRES | SPCOM)
+        fmt("sigma24/n=5", 5, 1, "", 0, 0, MULTI | REORD)
+        fmt("sigma24/n=6", 6, 1, "", 0, 0, 0)
+        fmt("sigma24/n=6", 6, 1, "", ALL, 0, 0)
+    # ---- skeletons
+    T = [('{"?":?,"?":[?]}', 0, 0, DUP | REORD, 0),
+         ('[?,{"?":"?"}]', 0, 0, UTF8 | PRES | HTML | JS, 0),
+         (' { "?" : ? , "?" : ? } ', REORD, 0, MULTI | SPCOL | SPCOM, 0),
+         ('{"b?":1,"a?":2,"?":{}}', REORD | DUP | UTF8, 0, PRES, 0),
+         ('[-0,1.50,1e2,12345678901234567890,"?"]', 0, 0, CINT | CFLT | PRES, 0),
+         ('{"%E2%80?":"<?>"}', 0, 0, HTML | JS | PRES | UTF8, 0),
+         ('[[?],{"?":{"?":[]}}]', 0, 0, MULTI | SPCOM, 1)]
+    if not q:
+        T += [('{"?":?,"?":[?]}', 0, 0, DUP | REORD | UTF8 | PRES | MULTI, 0),
+              ('{"?":1,"?":2,"?":3}', REORD, 0, DUP | UTF8 | PRES, 0),
+              ('{"?":1,"??":2,"?":3}', REORD | DUP | UTF8 | PRES, 0, 0, 0),
+              ('{"%EE??":[?],"%F0%90??":"?"}', REORD, 0, UTF8 | PRES, 0),
+              ('["\\u????",{"\\uD8??\\uDC??":?}]', 0, 0, PRES | UTF8, 0),
+              ('[?,{"?":"?"}]', 0, 0, ALL & ~(CINT | CFLT | MULTI | SPCOL | SPCOM), 0),
+              ('{"a":{"?":1,"?":[{"?":?}]},"?":-0}', REORD | CINT, 0, DUP | CFLT, 2),
+              ('[1?,-?,?.5,1e?]', 0, 0, PRES | MULTI, 3),
+              (' [ ? , { "?" : "?" } , ? ] ', 0, 0, MULTI | SPCOM | SPCOL | REORD, 0)]
+    for i, (t, on, off, sym, ind) in enumerate(T):
+        fmt("tmpl/%d" % i, 0, 0, t, on, off, sym, ind)
+    # ---- AppendFormat
+    for ov in (False, True):
+        app("full/n=3" if q else "full/n=4", 3 if q else 4, 0, "", 0, UTF8 | DUP if q else UTF8, ov)
+        app("tmpl/0", 0, 0, '{"?":?,"?":"?"}', 0, DUP | REORD | (0 if q else HTML | PRES), ov)
+    if not q:
+        app("sigma24/n=5", 5, 1, "", 0, MULTI | REORD, True)
+    # ---- Compact / Indent / Canonicalize wrappers
+    for which in (0, 1):
+        wrap("full/n=3" if q else "full/n=4", 3 if q else 4, 0, "", which)
+        wrap("sigma24/n=4" if q else "sigma24/n=5", 4 if q else 5, 1, "", which)
+        wrap("tmpl/0", 0, 0, ' { "?" : [ ? , "?" ] , "?" : { } } ', which)
+        wrap("tmpl/1", 0, 0, '[{"?":?,"?":?},"%C0?"]' if not q else '[{"?":?},"%C0?"]', which)
+    wrap("full/n=3", 3, 0, "", 0, 0, 0, MULTI | UTF8 | (0 if q else PRES | SPCOL))
+    wrap("full/n=3", 3, 0, "", 1, 0, 0, DUP | SPCOM | (0 if q else SPCOL | REORD))
+    for ind in (1, 2, 3):
+        wrap("tmpl/2", 0, 0, '{"?":[?,{}],"?":{"a":[]}}', 1, 0, 0, 0, ind)
+    wrap("full/n=3", 3, 0, "", 2, 0, 0, UTF8 | DUP)
+    wrap("tmpl/3", 0, 0, '{"?":?, "?":"?"}', 2, 0, 0, DUP | (0 if q else CINT | UTF8))
+    if not q:
+        wrap("tmpl/4", 0, 0, ' [ {"?":?,"?":[?]} , ? ] ', 1, 0, 0, SPCOL | SPCOM | MULTI | PRES, 1)
+        wrap("tmpl/5", 0, 0, '{"??":1,"?":{"?":2}}', 2, 0, 0, DUP | UTF8)
     return L
